@@ -23,5 +23,10 @@ static void *vpd_calloc(size_t n, size_t sz);
 #ifdef VP_CBMC
 static void *vpd_memset(void *p, int c, size_t n);
 #define memset(p, c, n) vpd_memset((p), (c), (n))
+/* likewise memcpy(&typed, &typed, sizeof(T)): a byte-loop copy into a member turns the whole enclosing object into a
+ * byte_update expression (function pointers stored in it are then no constants: every candidate target is explored) */
+static void *vpd_memcpy(void *d, const void *s, size_t n);
+#undef memcpy
+#define memcpy(d, s, n) vpd_memcpy((d), (s), (n))
 #endif
 #endif
